@@ -253,12 +253,12 @@ void Session::monitor_tx_hook(int hook, htp_tx_t *tx, TxM &m) {
     m.resprog = tx->response_progress; m.seen100 = tx->seen_100continue;
     int ph;
     if ((ph = req_phase(hook)) != 0) {
-        if (ph < m.reqph) viol("C05:request_callback_order:" + std::string(hook_name(hook)) + "_after_phase" + std::to_string(m.reqph) + "@" + htp_connp_in_state_as_string(connp_) + tsuffix(m, 1u << 5));
+        if (ph < m.reqph) viol("C05:request_callback_order:" + std::string(hook_name(hook)) + "_after_phase" + std::to_string(m.reqph) + "@" + htp_connp_in_state_as_string(connp_) + tsuffix(m, (hook == H_REQ_BODY || hook == H_TXREQ_BODY) ? ((1u << 5) | (1u << 9)) : (1u << 5)));
         if (ph > m.reqph) m.reqph = ph;
     } else if ((ph = res_phase(hook)) != 0) {
         if (ph < m.resph) {
             if ((hook == H_RES_LINE || hook == H_RES_START) && m.last_status == 100) m.resph = ph; // documented restart
-            else viol("C05:response_callback_order:" + std::string(hook_name(hook)) + "_after_phase" + std::to_string(m.resph) + "@" + htp_connp_out_state_as_string(connp_) + tsuffix(m, (hook == H_RES_BODY || hook == H_TXRES_BODY) ? (1u << 7) : (1u << 6)));
+            else viol("C05:response_callback_order:" + std::string(hook_name(hook)) + "_after_phase" + std::to_string(m.resph) + "@" + htp_connp_out_state_as_string(connp_) + tsuffix(m, (hook == H_RES_BODY || hook == H_TXRES_BODY) ? ((1u << 7) | (1u << 9)) : (1u << 6)));
         }
         if (ph > m.resph) m.resph = ph;
         if (hook == H_RES_LINE) m.last_status = tx->response_status_number;
@@ -346,13 +346,13 @@ int Session::on_log(htp_log_t *l) {
 
 void Session::on_trace(int site, const void *a, long) {
     r_.trace_hits[site]++;
-    if (site >= 5 && site <= 8 && a) { int serial = serial_of((htp_tx_t *)a); mon_[serial].tflags |= 1u << site; }
+    if (site >= 5 && site <= 9 && a) { int serial = serial_of((htp_tx_t *)a); mon_[serial].tflags |= 1u << site; }
 }
 // "+T6" style suffix: the violation happened in a transaction that went through a deliberate tolerance branch
 // (T5 unexpected request body, T6 response line treated as body, T7 unexpected response body); known findings
 // are keyed on the suffixed signature only, so the same rule failing elsewhere is still reported.
 std::string Session::tsuffix(const TxM &m, unsigned mask) const {
-    std::string s; for (int t = 5; t <= 8; t++) if ((m.tflags & mask) & (1u << t)) s += "+T" + std::to_string(t); return s;
+    std::string s; for (int t = 5; t <= 9; t++) if ((m.tflags & mask) & (1u << t)) s += "+T" + std::to_string(t); return s;
 }
 
 Call &Session::begin_call(char kind, size_t len) {
